@@ -44,7 +44,7 @@ ASSUMPTIONS = (
 )
 EXPECTED_PROBES = ("second-chance-read-hit", "mutex-contended", "two-threads-saw-stale", "failing-compile-while-other-waited",
                    "lru-eviction-during-run", "setitem-concurrent-with-manage-size", "cache-memoised-twice",
-                   "writer-modified-during-call", "render-with-nested-lookups", "uri-cache-eviction")
+                   "writer-modified-during-call", "render-with-nested-lookups", "uri-cache-eviction", "direct-construct-with-module-directory")
 
 HOT_FUNCS = ("get_template", "_check", "_load", "adjust_uri", "__getitem__", "__setitem__", "_manage_size", "__get__")
 
@@ -126,7 +126,7 @@ def _workload(rng, small=False):
     cfg = {
         "collection_size": rng.choice((-1, 1, 1, 2)) if small else rng.choice((-1, -1, 1, 2)),
         "fs_checks": rng.random() < 0.85,
-        "moddir": rng.random() < 0.12,
+        "moddir": rng.random() < 0.2,
         "cached": rng.random() < 0.3,
         "granularity": rng.choice(("coarse", "line", "line", "line", "opcode")),
         "strategy": rng.choice(("random", "random", "pct", "pct", "pb", "pb", "pb", "rr", "stall")),
@@ -177,6 +177,11 @@ def _workload(rng, small=False):
                 continue
             r = rng.random()
             u = hot if rng.random() < 0.5 else rng.choice(gettable)
+            if cfg["moddir"] and rng.random() < 0.3:
+                # Template(filename=..., module_directory=...) built directly, not through the lookup's mutex:
+                # concurrent Templates for the same source in this process share the module file
+                ops.append(["construct", hot if rng.random() < 0.6 else rng.choice(gettable)])
+                continue
             if small and r < 0.75:
                 xn += 1
                 ops.append(["render", rng.choice(renderable), "%s%d" % ("ABC"[t], xn)])
@@ -506,6 +511,8 @@ class Harness:
                 raise
             except Exception:
                 pass
+        elif kind == "construct":
+            self.do_construct(name, op[1])
         elif kind == "has":
             n0 = len(self.records.get(name, ()))
             try:
@@ -521,6 +528,33 @@ class Harness:
                     self.flag("has-template-mismatch", "has_template(%r) returned %r although get_template %s" % (op[1], r, rec["kind"]))
         elif kind == "render":
             self.do_render(name, op[1], op[2])
+
+    def do_construct(self, name, uri):
+        import mako.template
+
+        us = next(u for u in self.uspecs if u["uri"] == uri)
+        p = posixpath.join(self.d0, us["rel"])
+        s0 = self.sched.step
+        try:
+            t = mako.template.Template(filename=p, uri=uri, module_directory=self.moddir, lookup=self.lookup, cache_impl="simdict")
+        except SchedulerAbort:
+            raise
+        except BaseException as e:
+            if us["kind"] == "broken" and "SyntaxException" in [c.__name__ for c in type(e).__mro__]:
+                return
+            self.flag("undocumented-exception", "%s: Template(filename=%r, module_directory=...) raised %s: %s"
+                      % (name, uri, type(e).__name__, str(e)[:120]), "%s@%s" % (type(e).__name__, _where(e)))
+            return
+        self.keep.append(t)
+        self.probe("direct-construct-with-module-directory")
+        tag = self.describe(t)
+        at0 = self.version_at(p, s0)
+        at1 = self.version_at(p, self.sched.step)
+        if tag is None or tag[0] != self.uspecs.index(us) or not (at0[0] <= tag[2] <= at1[0]):
+            # a reused module file may be one whole-second-mtime step behind, as in C15; only a foreign or future module is wrong
+            if tag is None or tag[0] != self.uspecs.index(us) or tag[2] > at1[0]:
+                self.flag("half-constructed", "%s: Template(filename=%r, module_directory=...) carries module %s while the file had v%d..v%d during the call"
+                          % (name, uri, tag, at0[0], at1[0]))
 
     def do_render(self, name, uri, x):
         try:
